@@ -104,6 +104,19 @@ def extract(repo, failures):
     fl2 = func_body(lg, r"void\s+flush_log\s*\([^)]*\)\s*\{")
     d["flushRetries"] = bool(fl2 and re.search(r"while\s*\(\s*!this->(template\s+)?log_statement", fl2))
 
+    # logger clean-up: the emptiness of all queues is re-checked for every invalid logger, inside the loop, after its
+    # validity was read (a logger invalidated while an earlier one is being destroyed must see the fresh answer)
+    lm = strip_cpp_comments(read(repo, "include/quill/core/LoggerManager.h"))
+    cil = func_body(lm, r"cleanup_invalidated_loggers\s*\([^)]*\)\s*\{")
+    if cil is None:
+        failures.append("backend: LoggerManager::cleanup_invalidated_loggers not found")
+        d["checksQueuesPerLogger"] = False
+    else:
+        i_for = cil.find("for (")
+        i_valid = cil.find("is_valid_logger", i_for)
+        i_chk = cil.find("check_queues_empty()", i_for)
+        d["checksQueuesPerLogger"] = 0 <= i_for < i_valid < i_chk and cil.count("check_queues_empty()") == 1
+
     L = []
     L.append("/-- facts of the backend worker / frontend the backend model is parametric in -/")
     L.append("def invalidBits : Nat := %d" % d["invalidBits"])
